@@ -103,6 +103,7 @@ pub fn vocabulary(a: &RefAuto, probes: &Probes) -> Vocabulary {
     v.words.extend(items.iter().cloned());
     v.words.extend(partials.iter().cloned());
     v.words.insert("zz".into());
+    EXTRA_WORDS.with(|w| v.words.extend(w.borrow().iter().cloned()));
     if let Some(l) = items.iter().find(|i| i.chars().count() >= 2) {
         let cut: String = l.chars().take(l.chars().count() - 1).collect();
         v.words.insert(cut);
@@ -290,6 +291,8 @@ fn lean_cursors(a: &RefAuto, set: &StateSet, probes: &Probes, vocab: &Vocabulary
 }
 
 thread_local! {
+    /// additional complete words to try at every state (C07: near misses of literals)
+    pub static EXTRA_WORDS: std::cell::RefCell<Vec<String>> = const { std::cell::RefCell::new(Vec::new()) };
     /// run the empty-COMP_WORDBREAKS variant only for every n-th eligible cursor word (1 = all)
     pub static EMPTY_WB_STRIDE: std::cell::Cell<usize> = const { std::cell::Cell::new(1) };
 }
